@@ -193,6 +193,7 @@ impl Check for DrawdownScan {
         }
 
         // ---- layer (a)+(b): DrawdownGenerator::default / ::init + Max + Mean --------------------
+        let mut persisted = 0usize;
         for use_init in [false, true] {
             let tag = if use_init { "generator-init" } else { "generator-default" };
             let mut g = if use_init {
@@ -202,6 +203,16 @@ impl Check for DrawdownScan {
                 if let Some(d) = g.update(Timed::new(pts[0].1, ts(pts[0].0))) {
                     bad!(format!("{tag}:drawdown-on-first-point"), "first point reported a drawdown {d:?}");
                 }
+                g
+            };
+            // a twin fed the same curve at microsecond-precise instants (exchange clocks are not
+            // millisecond-aligned); where `locked % 4 == 1` it is persisted and restored (serde), which
+            // must give back the same generator: what it reports afterwards is still the decline from
+            // the true peak instant
+            let tsu = |t: i64| ts(t) + chrono::Duration::microseconds((t % 7) * 137 + 1);
+            let mut twin = if use_init { DrawdownGenerator::init(Timed::new(pts[0].1, tsu(pts[0].0))) } else {
+                let mut g = DrawdownGenerator::default();
+                let _ = g.update(Timed::new(pts[0].1, tsu(pts[0].0)));
                 g
             };
             let mut scan = Scan::new(pts[0].0, pts[0].1);
@@ -220,7 +231,21 @@ impl Check for DrawdownScan {
                     }
                     conv(&d)
                 });
+                let twin_done = twin.update(Timed::new(*v, tsu(*t)));
+                if case.points[i].locked % 4 == 1 {
+                    let restored: Result<DrawdownGenerator, _> = serde_json::to_string(&twin).and_then(|s| serde_json::from_str(&s));
+                    match restored {
+                        Ok(r) if r == twin && r.clone().generate() == twin.clone().generate() => {
+                            twin = r;
+                            persisted += 1;
+                        }
+                        other => bad!(format!("{tag}:persisted-generator-differs"), "point {i} ({t},{v}): generator {twin:?} (current drawdown {:?}) persisted and restored is {other:?}", twin.clone().generate()),
+                    }
+                }
                 let exp = scan.step(*t, *v);
+                if twin_done.as_ref().map(|d| (d.value, d.time_start, d.time_end)) != exp.as_ref().map(|e| (e.depth, tsu(e.start), tsu(e.end))) {
+                    bad!(format!("{tag}:completed-drawdown-microsecond-instants"), "point {i} ({t},{v}): fed at microsecond-precise instants (restored from its persisted form {persisted} times) update returned {twin_done:?}, peak-to-trough scan gives {exp:?} at those instants");
+                }
                 if got != exp {
                     bad!(format!("{tag}:completed-drawdown"), "point {i} ({t},{v}): update returned {got:?}, peak-to-trough scan gives {exp:?} (curve {pts:?})");
                 }
@@ -490,6 +515,7 @@ impl Check for DrawdownScan {
             }
         }
         rep.class_if(deepened_after_query, "interim_query_then_deeper_decline");
+        rep.class_if(persisted > 0, "generator_persisted_and_restored_mid_history");
         rep.class_if((1..pts.len()).any(|i| case.points[i].locked == 7 && pts[i].1 > Decimal::ZERO), "instrument_sheet_generator_reset_mid_history");
         rep.class_if(queries(case).len() >= 2, "two_or_more_interim_queries");
         rep.nontrivial = scan.completed.len() >= 2 && scan.in_progress().is_some();
@@ -498,7 +524,7 @@ impl Check for DrawdownScan {
 }
 
 pub fn run(ctx: &mut Ctx) {
-    ctx.rule = "drawdown_scan: 1..60|150 timed points, strictly increasing times, values from a small grid (1..7 mostly, up to 200, a few <= 0 after the first) with +-0.1 perturbations so that equal consecutive values, exact recoveries to the peak and new highs by one tick are common; first value > 0. Fed to DrawdownGenerator (default and init), Max/Mean generators (updated from empty, and constructed from the first drawdown through init()), TearSheetAssetGenerator (balances; a third of them with part of the total locked, free < total) and TearSheetGenerator (cumulative PnL of closed positions with varying entry price / size; in one curve of 25 the generator is reset mid-history and describes the new session only), (final sheets only) a TradingSummaryGenerator over two venues whose index order is not their alphabetical order, fed by index with two assets whose venues' clocks are 5 s apart and with the curve as one instrument's cumulative PnL next to an instrument that only gains (sheets read by name), and the asset statistics inside an EngineState that receives the curve as account events (single balance updates; where `locked` is odd, full account snapshots), each compared after every point with an independent peak-to-trough scan; after 15% of the points the live generators themselves (not copies) are asked for the current drawdown / an interim tear sheet and keep being updated afterwards. non-trivial = >= 2 completed drawdowns and one in progress at the end; distinct by hash of the case.".into();
+    ctx.rule = "drawdown_scan: 1..60|150 timed points, strictly increasing times, values from a small grid (1..7 mostly, up to 200, a few <= 0 after the first) with +-0.1 perturbations so that equal consecutive values, exact recoveries to the peak and new highs by one tick are common; first value > 0. Fed to DrawdownGenerator (default and init; plus a twin fed at microsecond-precise instants that is persisted and restored through serde at a quarter of the points and must come back equal), Max/Mean generators (updated from empty, and constructed from the first drawdown through init()), TearSheetAssetGenerator (balances; a third of them with part of the total locked, free < total) and TearSheetGenerator (cumulative PnL of closed positions with varying entry price / size; in one curve of 25 the generator is reset mid-history and describes the new session only), (final sheets only) a TradingSummaryGenerator over two venues whose index order is not their alphabetical order, fed by index with two assets whose venues' clocks are 5 s apart and with the curve as one instrument's cumulative PnL next to an instrument that only gains (sheets read by name), and the asset statistics inside an EngineState that receives the curve as account events (single balance updates; where `locked` is odd, full account snapshots), each compared after every point with an independent peak-to-trough scan; after 15% of the points the live generators themselves (not copies) are asked for the current drawdown / an interim tear sheet and keep being updated afterwards. non-trivial = >= 2 completed drawdowns and one in progress at the end; distinct by hash of the case.".into();
     ctx.assumptions = vec![
         "running maxima are positive (first value > 0); later values may be <= 0".into(),
         "tear-sheet generate() is called once per generator clone, as the engine API does (generate folds the in-progress drawdown into max/mean)".into(),
